@@ -181,10 +181,13 @@ REVERTS = [
     ("C19", "fix: Comms.getData forwarded"), ("C07", "fix: IKFree reported"), ("C17", "fix: FKLink passed"),
     ("C09", "fix: spinCustom left the Newton"), ("C09", "fix: SPFKinSpaceR stopped"), ("C09", "fix: SP fsolve forward"),
     ("C10", "fix: spinCustom deformed"), ("C10", "fix: SP force/Jacobian queries"), ("C10", "fix: the two SP forward-kinematics"),
-    ("C10", "fix: SP.FK kept"), ("C05", "fix: Arm frame bookkeeping"), ("C16", "fix: progressBar divided"),
+    ("C10", "fix: SP.FK kept"), ("C16", "fix: progressBar divided"),
     ("C14", "fix: tm.gPos() returned"), ("C14", "fix: all default-constructed Screws"),
     ("C11", "fix: SP body-frame statics"), ("C06", "fix: numericalJacobian differentiates"), ("C14", "fix: adjustRotationToMidpoint(mode=1)"), ("C14", "fix: transformWrenchFrame converted"), ("C05", "fix: jacobianEETrans zeroed"), ("C03", "fix: MatrixLog3 amplified"), ("C10", "fix: spinCustom left the joint-deflection"), ("C07", "fix: IKinSpaceConstrained accepted a start"), ("C01", "fix: MatrixLog3 half-turn formulas lost"), ("C08", "fix: inverseDynamicsEMR / forwardDynamics raised"),
 ]
+# not in the list: "fix: Arm frame bookkeeping" - the 3e-7 rad it repaired came from the logarithm's half-turn conditioning, which the later
+# MatrixLog3 repairs removed at the root: reverse-applying it no longer changes any pose (an equivalent mutant);
+# "fix: free IK reported success for a vector" - one event per 6e5 solves, out of the quick tier's reach.
 for prop, subj in REVERTS:
     MUTANTS.append(dict(id="revert:" + subj[5:40].strip().replace(" ", "_"), revert=subj, props=[prop], desc="re-introduces the defect repaired by '%s...'" % subj))
 
